@@ -540,6 +540,45 @@ def run_node_reads(spec):
                             "replay": {"op": "node_reads"}})
                 if sp.node_sock.closed:
                     break
+        # a frame that cannot be a message (announced length below the header size) directly behind k good
+        # requests, all in one write, so that the answers to the good ones are still on their way out when the
+        # bad frame is met: afterwards the connection is either closed or still serving - not kept open and dead
+        import struct as _st
+        gen = 0
+        for k in (0, 1, 2, 5, 12):
+            for bad_len in (0, 8, 19):
+                gen += 1
+                sp2 = h.inbound(ip="10.1.0.1", port=50100 + gen)
+                h.settle()
+                sp2.send(M.cer(name, REALM, auth=[4], hbh=1, e2e=gen + 10))
+                h.settle()
+                sp2.drain()
+                blob = b""
+                for j in range(k):
+                    hb += 1
+                    blob += M.dwr(name, REALM, hbh=hb, e2e=0x60000 + hb)
+                blob += b"\x01" + _st.pack(">I", bad_len)[1:] + b"\x80\x00\x01\x18" + bytes(12)
+                sp2.send(blob)
+                h.settle()
+                hb += 1
+                try:
+                    sp2.send(M.dwr(name, REALM, hbh=hb, e2e=0x60000 + hb))
+                    h.settle()
+                except OSError:
+                    pass
+                sp2.drain()
+                served = any(f.h.hbh == hb and not f.is_request for f in sp2.frames)
+                evals += 1
+                hashes.add(h64("node-bad-frame", k, bad_len))
+                cov["bad_frame_behind_pending_answers"] = cov.get("bad_frame_behind_pending_answers", 0) + 1
+                if not sp2.node_sock.closed and not served:
+                    wit.append({"key": "framing.node_reads.bad_frame_connection_neither_closed_nor_serving",
+                                "detail": {"good_requests_before": k, "announced_length": bad_len,
+                                           "state": getattr(h.conn_of(sp2), "state", None)},
+                                "replay": {"op": "node_reads"}})
+                if not sp2.closed:
+                    sp2.close()
+                h.settle()
     finally:
         w.teardown()
     cov["node_read_sizes"] = sorted(set(cov["node_read_sizes"]))[:40]
